@@ -186,7 +186,7 @@ fn rustpython_ok(text: &str) -> Option<()> {
 
 pub fn run(rep: &'static Report) {
     let thorough = is_thorough();
-    let k = if thorough { 3 } else { 2 };
+    let k = if thorough { 4 } else { 3 };
     let cases = generate("gen_c18.py", k, &[]);
     let findings: Mutex<Vec<Finding>> = Mutex::new(Vec::new());
     let evals = std::sync::atomic::AtomicU64::new(0);
